@@ -17,13 +17,15 @@ RULE = ("(enumerated completely in both tiers) every chain nesting of depth 1..4
         "and be back to the defaults at the end. At every level where tracking is off a probe workload checks the no_autodiff contract: results "
         "have no creator and no base (also for view ops), inputs gain no consumers and keep their gradient, no array gets locked, in-place "
         "updates write straight into the tensor's own memory (same array object, visible through a NumPy view), backward() writes nothing, and "
-        "values/dtypes equal the tracked run. Non-trivial: depth>=2 or an exception; distinct = scope-tree signature.")
+        "values/dtypes equal the tracked run; each probe also replays one entry of a 31-call mixed-precision catalogue (batchnorm / conv_nd / "
+        "softmax / losses / matmul / einsum / reductions / power / where / joins over float16-float32-float64-int8 operand mixes) and demands "
+        "the tracked call's dtype and bit-identical values. Non-trivial: depth>=2 or an exception; distinct = scope-tree signature.")
 ASSUMPTIONS = ["only LIFO nestings (contexts/decorators); generator-suspended scopes are not nestings",
                "turn_memory_guarding_* inside a scope sets the current value and the scope restores its saved value on exit"]
 N_CHAIN = sum(6 ** L * (1 + L) for L in range(1, 5))
 TIERS = {"quick": {"cases": N_CHAIN + 12000}, "thorough": {"cases": N_CHAIN + 600000}}
-FLOORS = {"quick": {"state_checks": 60000, "noautodiff_probes": 8000, "chain_cases": N_CHAIN},
-          "thorough": {"state_checks": 300000, "noautodiff_probes": 40000, "chain_cases": N_CHAIN}}
+FLOORS = {"quick": {"state_checks": 60000, "noautodiff_probes": 8000, "catalogue_compared": 8000, "chain_cases": N_CHAIN},
+          "thorough": {"state_checks": 300000, "noautodiff_probes": 40000, "catalogue_compared": 40000, "chain_cases": N_CHAIN}}
 MGRS = ["no_autodiff", "mem_guard_off", "mem_guard_on"]
 FORMS = ["with", "deco"]
 
@@ -75,6 +77,76 @@ def gen_case(rng, cfg, idx):
 
 class UserErr(Exception):
     pass
+
+
+_CATALOGUE = None
+
+
+def catalogue(mg):
+    """Mixed-precision calls (the same-precision catalogue is swept by C03 and C16): (name, thunk building fresh operands, tracked dtype, tracked
+    values).  Built once per process, under tracking."""
+    global _CATALOGUE
+    if _CATALOGUE is not None:
+        return _CATALOGUE
+    from mygrad.nnet.layers import batchnorm, conv_nd, max_pool
+    from mygrad.nnet.activations import softmax, logsoftmax
+    from mygrad.nnet.losses import softmax_crossentropy
+    rng = np.random.default_rng(15)
+    x64 = rng.normal(size=(4, 3, 2))
+    x32, x16 = x64.astype(np.float32), x64.astype(np.float16)
+    g64, b64 = rng.uniform(0.5, 2, size=3), rng.normal(size=3)
+    g32 = g64.astype(np.float32)
+    img = rng.normal(size=(2, 3, 6)).astype(np.float32)
+    w64 = rng.normal(size=(2, 3, 2))
+    lab = np.array([0, 2, 1, 1])
+    m32, m64 = rng.normal(size=(3, 4)).astype(np.float32), rng.normal(size=(4, 2))
+    i8 = np.arange(6, dtype=np.int8).reshape(2, 3)
+    T = mg.tensor
+    ents = [
+        ("batchnorm(x f32, gamma f64, beta f64)", lambda: batchnorm(T(x32), gamma=T(g64), beta=T(b64), eps=1e-8)),
+        ("batchnorm(x f32 array, gamma f64 array)", lambda: batchnorm(x32, gamma=g64, beta=None, eps=1e-8)),
+        ("batchnorm(x f32, beta f64)", lambda: batchnorm(T(x32), gamma=None, beta=b64, eps=1e-8)),
+        ("batchnorm(x f16, gamma f32)", lambda: batchnorm(T(x16), gamma=T(g32), beta=None, eps=1e-3)),
+        ("batchnorm(x f64, gamma f32)", lambda: batchnorm(T(x64), gamma=T(g32), beta=T(b64), eps=1e-8)),
+        ("softmax(f32)", lambda: softmax(T(x32[:, :, 0]))),
+        ("logsoftmax(f16)", lambda: logsoftmax(T(x16[:, :, 0]))),
+        ("softmax_crossentropy(f32)", lambda: softmax_crossentropy(T(x32[:, :, 0]), lab)),
+        ("conv_nd(x f32, w f64)", lambda: conv_nd(T(img), T(w64), stride=2)),
+        ("conv_nd(x f32, w f64 constant)", lambda: conv_nd(T(img), w64, stride=1, padding=1)),
+        ("max_pool(f32)", lambda: max_pool(T(img), (2,), 2)),
+        ("matmul(f32, f64)", lambda: mg.matmul(T(m32), T(m64))),
+        ("einsum(f32, f64)", lambda: mg.einsum("ij,jk->ik", T(m32), m64)),
+        ("f32 tensor + python float", lambda: T(m32) + 0.1),
+        ("int8 tensor * f32 array", lambda: T(i8) * m32[:2, :3]),
+        ("int8 tensor / int8 tensor", lambda: T(i8) / T(i8 + 1)),
+        ("mean(int8)", lambda: mg.mean(T(i8), axis=0)),
+        ("sum(f16)", lambda: mg.sum(T(x16))),
+        ("var(f32)", lambda: mg.var(T(x32), axis=1)),
+        ("std(f16, ddof=1)", lambda: mg.std(T(x16), axis=0, ddof=1)),
+        ("where(mask, f32, f64)", lambda: mg.where(m32 > 0, T(m32), T(rng_like(m32)))),
+        ("f32 ** 2", lambda: T(m32) ** 2),
+        ("f32 ** 0.5 (python float)", lambda: mg.abs(T(m32)) ** 0.5),
+        ("f16 ** f64 tensor", lambda: mg.abs(T(x16)) ** T(np.float64(1.5))),
+        ("sqrt(int8)", lambda: mg.sqrt(T(i8))),
+        ("add(f32, f32, dtype=f64)", lambda: mg.add(T(m32), m32, dtype=np.float64)),
+        ("clip(f32, python floats)", lambda: mg.clip(T(m32), -0.5, 0.5)),
+        ("maximum(f32, f64 0-d)", lambda: mg.maximum(T(m32), np.float64(0.25))),
+        ("stack(f32, f64)", lambda: mg.stack([T(m32), T(m32.astype(np.float64))])),
+        ("concatenate(f16, f32)", lambda: mg.concatenate([T(x16), T(x32)], axis=0)),
+        ("astype-free view chain f32[...,0].T @ f64", lambda: T(x32)[..., 0].T @ T(x64[..., 1])),
+    ]
+    out = []
+    for name, thunk in ents:
+        r = thunk()
+        out.append((name, thunk, r.dtype, np.array(r.data, copy=True)))
+        r.clear_graph()
+        del r
+    _CATALOGUE = out
+    return out
+
+
+def rng_like(a):
+    return np.linspace(-1.0, 1.0, a.size).reshape(a.shape)
 
 
 class Runner:
@@ -144,6 +216,15 @@ class Runner:
         gy.backward()
         if gy.creator is not cr[0] or gc_.creator is not cr[1] or self.gx.grad is not None or self.gx.data.flags.writeable != wl:
             bad.append("backward() inside no_autodiff touched a graph recorded outside the scope")
+        # an operation that FAILS inside the scope touches no lock it does not hold: the arrays of the graph recorded outside stay as they are
+        for bad_call in (lambda: mg.add(self.gx, np.ones((7, 5, 3))), lambda: mg.multiply(self.gy, np.ones((7, 5, 3))),
+                         lambda: self.gx.__setitem__((9, 9, 9), 1.0), lambda: mg.add(self.gx, 1.0, dtype=np.complex64)):
+            try:
+                bad_call()
+            except Exception:
+                pass
+        if self.gx.data.flags.writeable != wl or self.gy.data.flags.writeable != self.gy_wl:
+            bad.append("a failing operation inside no_autodiff changed the writeability of arrays locked by a graph recorded outside")
         # reading a not-yet-computed view gradient (derived lazily from the base's) must not disturb the switches
         if self.fresh_views:
             v = self.fresh_views.pop()
@@ -177,6 +258,22 @@ class Runner:
         tc.shape = (2, 3)
         if tc.data is not d1 or tc.shape != (2, 3) or tc.creator is not None:
             bad.append("shape assignment did not reshape the tensor's own array in place")
+        # one mixed-precision entry of the catalogue per probe: same dtype and bit-identical values as the tracked call, nothing recorded
+        cat = self.cat
+        if cat:
+            name, thunk, dt, val = cat[self.cnt["noautodiff_probes"] % len(cat)]
+            self.cnt["catalogue_compared"] = self.cnt.get("catalogue_compared", 0) + 1
+            try:
+                with np.errstate(all="ignore"):
+                    r = thunk()
+                if r.dtype != dt:
+                    bad.append(f"dtype differs from the tracked computation: {name}: {r.dtype} vs tracked {dt}")
+                elif not np.array_equal(r.data, val, equal_nan=True):
+                    bad.append(f"value differs from the tracked computation: {name}")
+                if r.creator is not None or r.base is not None:
+                    bad.append(f"result has a creator/base: {name}")
+            except Exception as e:
+                bad.append(f"raises under no_autodiff only: {name}: {type(e).__name__}")
         for b in bad:
             self.viol.append({"monitor": "no_autodiff", "mech": "no_autodiff:" + b, "msg": f"{where}: {b}"})
 
@@ -271,6 +368,7 @@ def run_case(case):
     from mygrad._utils import graph_tracking as gt, lock_management as lm
     REG.reset()
     r = Runner()
+    r.cat = catalogue(mg)
     x = mg.tensor([1.0, 2.0, 3.0])
     (x * x).sum().backward()
     r.x = x
@@ -282,6 +380,7 @@ def run_case(case):
     r.gx = mg.tensor([1.0, 2.0])
     r.gy = r.gx * 2.0                                    # a live graph recorded outside every scope
     r.gc = mg.multiply(r.gy, 3.0, constant=True)
+    r.gy_wl = r.gy.data.flags.writeable
     try:
         r.check("start")
         try:
